@@ -1446,6 +1446,21 @@ class ModelBuilder:
                     if scenario_idx is not None and attr_data and isinstance(attr_data, tuple):
                         attr_key, attr_value = attr_data
                         obj[(attr_key, scenario_idx)] = attr_value
+                        # Nested scenarios inherit the value from their parent scenario
+                        # unless they (or a scenario in between) have a value of their own
+                        explicit = obj.__dict__.setdefault("_scenario_explicit", set())
+                        explicit.add((attr_key, scenario_idx))
+                        scenarios = list(obj.project.scenarios)
+
+                        def apply_down(parent_scenario: Any) -> None:
+                            for child in parent_scenario.children:
+                                child_idx = scenarios.index(child)
+                                if (attr_key, child_idx) in explicit:
+                                    continue
+                                obj[(attr_key, child_idx)] = attr_value
+                                apply_down(child)
+
+                        apply_down(scenarios[scenario_idx])
                 elif key == "journalentry":
                     # Create a journal entry for this task
                     self._create_journal_entry(obj, value)  # type: ignore[arg-type]
